@@ -522,7 +522,6 @@ func (fr *Frame) mapLookup(x *ssa.Lookup, base Val) {
 }
 
 func (fr *Frame) mapUpdate(x *ssa.MapUpdate) {
-	q := fr.q
 	st := fr.cur.st
 	mt := underlying(x.Map.Type()).(*types.Map)
 	m := fr.val(x.Map).C[0]
@@ -533,16 +532,15 @@ func (fr *Frame) mapUpdate(x *ssa.MapUpdate) {
 	}
 	key := fr.val(x.Key).C[0]
 	v := fr.val(x.Value)
-	h := q.get(st, has)
+	h := fr.named(st, has)
 	st.v[has] = fmt.Sprintf("(store %s %s (store (select %s %s) %s true))", h, m, h, m, key)
 	for i, f := range vfs {
-		a := q.get(st, f)
+		a := fr.named(st, f)
 		st.v[f] = fmt.Sprintf("(store %s %s (store (select %s %s) %s %s))", a, m, a, m, key, v.C[i])
 	}
 }
 
 func (fr *Frame) mapDelete(c *ssa.CallCommon, args []Val) {
-	q := fr.q
 	st := fr.cur.st
 	mt, ok := underlying(c.Args[0].Type()).(*types.Map)
 	if !ok {
@@ -553,8 +551,20 @@ func (fr *Frame) mapDelete(c *ssa.CallCommon, args []Val) {
 		return
 	}
 	m, key := args[0].C[0], args[1].C[0]
-	h := q.get(st, has)
+	h := fr.named(st, has)
 	st.v[has] = fmt.Sprintf("(store %s %s (store (select %s %s) %s false))", h, m, h, m, key)
+}
+
+// named: the current term of a family, bound to a constant if it is not already atomic (avoids term duplication)
+func (fr *Frame) named(st *State, fam string) string {
+	t := fr.q.get(st, fam)
+	if !strings.ContainsAny(t, " (") {
+		return t
+	}
+	n := fr.q.fresh(smtSym(fam)+"@n", famSort(fr.q, fam))
+	fr.q.assume("true", sEq(n, t))
+	st.v[fam] = n
+	return n
 }
 
 func (fr *Frame) mapInit(mm *ssa.MakeMap, a string) {
